@@ -128,6 +128,40 @@ def ts_is_simple(fn):
     return found
 
 
+def composes_vectorising(fn, mod, is_vec, depth=0):
+    """The body is `return g(h(p, q), ...)`: a composition of element-wise
+    functions applied to the bare value parameters (each used at most once
+    per call, in any nesting) is element-wise itself."""
+    body = [st for st in fn.body if not (
+        isinstance(st, ast.Expr) and isinstance(st.value, ast.Constant))]
+    if len(body) != 1 or not isinstance(body[0], ast.Return) \
+            or body[0].value is None:
+        return False
+    params = set(value_params(fn))
+
+    def ok(e, top):
+        if isinstance(e, ast.Name):
+            return e.id in params and not top
+        if isinstance(e, ast.Constant):
+            return not top
+        if isinstance(e, ast.Call) and isinstance(e.func, ast.Name):
+            g = e.func.id
+            if g == fn.name:
+                return False
+            vec = is_vec(g) or (
+                depth < 2 and g in mod.functions and composes_vectorising(
+                    mod.functions[g], mod, is_vec, depth + 1))
+            if not vec:
+                return False
+            args = [a for a in e.args] + [
+                k.value for k in e.keywords if k.arg != "ctx"]
+            args = [a for a in args
+                    if not (isinstance(a, ast.Name) and a.id == "ctx")]
+            return bool(args) and all(ok(a, False) for a in args)
+        return False
+    return ok(body[0].value, True)
+
+
 def scan(repo):
     mod = repo.mod("elements")
     info = {}
@@ -210,7 +244,9 @@ def check(chk, repo, tier):
                 f"anchor vanished: elements.{name} (frozen vectorising "
                 "instance)")
         fn = mod.functions[name]
-        chk.ob("C08.instance-keeps-fallback", name, name in info,
+        chk.ob("C08.instance-keeps-fallback", name,
+               name in info or composes_vectorising(
+                   fn, mod, lambda g: g in info and g in frozen),
                f"`{name}` no longer falls back to vectorise({name}, <its "
                "parameters in order>) for list arguments", EF, fn.lineno,
                witness=f"{name} applied to a list")
@@ -461,7 +497,33 @@ def helper_rules(chk, repo, mod):
         isinstance(n, ast.BoolOp) and isinstance(n.op, ast.And)
         and len({m.id for m in ast.walk(n) if isinstance(m, ast.Name)
                  and m.id in state_names}) >= 2 for n in ast.walk(vz))
-    ok = not uses_zip and ((len(fills) >= 2 and both) or any(
+    # sentinel idiom: next(it, END) twice; `x is END` decides the fill and
+    # the end of the loop - never the truth value of the item
+    dflt = [n for n in ast.walk(vz) if isinstance(n, ast.Call)
+            and dotted(n.func) == "next" and len(n.args) == 2]
+    sentinel_ok = False
+    if len(dflt) >= 2 and len({ast.unparse(n.args[1]) for n in dflt}) == 1 \
+            and not isinstance(dflt[0].args[1], ast.Constant):
+        end = ast.unparse(dflt[0].args[1])
+
+        def is_end(t):
+            return isinstance(t, ast.Compare) and len(t.ops) == 1 and \
+                isinstance(t.ops[0], ast.Is) and ast.unparse(
+                    t.comparators[0]) == end
+        zero_fills = [n for n in ast.walk(vz) if isinstance(n, ast.IfExp)
+                      and is_end(n.test) and isinstance(n.body, ast.Constant)
+                      and n.body.value == 0
+                      and not isinstance(n.body.value, bool)]
+        zero_fills += [n for n in ast.walk(vz) if isinstance(n, ast.If)
+                       and is_end(n.test) and any(
+                           isinstance(b, ast.Assign) and isinstance(
+                               b.value, ast.Constant) and b.value.value == 0
+                           for b in n.body)]
+        both_end = any(isinstance(n, ast.BoolOp) and isinstance(n.op, ast.And)
+                       and sum(1 for v in n.values if is_end(v)) >= 2
+                       for n in ast.walk(vz))
+        sentinel_ok = len(zero_fills) >= 2 and both_end
+    ok = not uses_zip and (sentinel_ok or (len(fills) >= 2 and both) or any(
         any(kw.arg == "fillvalue" and isinstance(kw.value, ast.Constant)
             and kw.value.value == 0 for kw in c.keywords) for c in longest))
     chk.ob("C08.zip-zero-fill", "elements.vy_zip", ok,
